@@ -90,6 +90,9 @@ func decodeCborLinkListFromAny(maybeList any) (List__Link, error) {
 				return nil, fmt.Errorf("expected cbor tag content to be []byte, got %T", rawTag.Content)
 			}
 			// the tag content is the _cid.Cid, after the first byte
+			if len(rawBytes) == 0 {
+				return nil, fmt.Errorf("expected cbor tag content to be a non-empty byte string")
+			}
 			_, _cid, err := cid.CidFromBytes(rawBytes[1:])
 			if err != nil {
 				return nil, fmt.Errorf("failed to cast cbor tag content to cid.Cid: %w", err)
